@@ -415,3 +415,61 @@ Theorem C19_label_cache_single_schema_partial : forall st qs,
   eval_trace match_cached st [] (qevals qs) = eval_trace match_plain st [] (qevals qs).
 Proof. exact label_cache_single_schema. Qed.
 Print Assumptions C19_label_cache_single_schema_partial.
+
+(* SEVERAL hooks registered under ONE name on one dispatcher (seed C19_g).  The callbacks for filter_case / map_case /
+   flatmap_case are built in one loop and called by Hypothesis later, at draw time; of_kind k = the hook functions one
+   generated case runs under kind k, in order.  For every state (hence after every registration history), dispatcher,
+   kind and operation: exactly the hooks of that name which their own filter set selects, in registration order ... *)
+Theorem C19_same_name_hooks_in_order : forall st di k o,
+  of_kind k (apply_case_hooks st di o)
+  = filter (fun f => negb (should_skip st f (Some o))) (all_by_name st di (NGen k TCase)).
+Proof. exact same_name_in_order. Qed.
+Print Assumptions C19_same_name_hooks_in_order.
+
+(* ... each selected hook as often as it is registered under that name (once per registration; none skipped), a hook that
+   is filtered out for the operation never *)
+Theorem C19_same_name_hooks_each_once : forall st di k o f,
+  count_n f (of_kind k (apply_case_hooks st di o))
+  = if should_skip st f (Some o) then 0 else count_n f (all_by_name st di (NGen k TCase)).
+Proof. exact same_name_each_once. Qed.
+Print Assumptions C19_same_name_hooks_each_once.
+
+(* ... and over the three scopes: global, then schema, then test *)
+Theorem C19_same_name_hooks_all_scopes : forall st g s t k o,
+  of_kind k (as_strategy_case_hooks st g s t o)
+  = fired st (Some o) (all_by_name st g (NGen k TCase)) ++ fired st (Some o) (all_by_name st s (NGen k TCase))
+    ++ match t with Some ti => fired st (Some o) (all_by_name st ti (NGen k TCase)) | None => [] end.
+Proof. exact same_name_all_scopes. Qed.
+Print Assumptions C19_same_name_hooks_all_scopes.
+
+(* sentinel: callbacks that look their hook up when they are CALLED (a closure over the loop variable of an exhausted
+   generator) all run the last hook of the list.  Two map_case hooks on the schema dispatcher, the first for GET, the second
+   for POST, operation GET /users: the filtered-out second hook runs, the selected first one never does *)
+Theorem C19_late_binding_refuted : exists scopes closures ops di k o f_out f_in,
+  let st := fst (run scopes closures ops) in
+  should_skip st f_out (Some o) = true /\
+  count_n f_out (of_kind k (apply_case_hooks_late st di o)) = 1 /\
+  should_skip st f_in (Some o) = false /\
+  count_n f_in (all_by_name st di (NGen k TCase)) = 1 /\
+  count_n f_in (of_kind k (apply_case_hooks_late st di o)) = 0.
+Proof.
+  exists [Global; Schema], [0; 1], hist_same_name, 1, KMap, op_get, 7%N, 6%N. exact late_binding_refuted.
+Qed.
+Print Assumptions C19_late_binding_refuted.
+
+Theorem C19_late_binding_witness :
+  let st := fst (run [Global; Schema] [0; 1] hist_same_name) in
+  all_by_name st 1 (NGen KMap TCase) = [6%N; 7%N] /\
+  should_skip st 6%N (Some op_get) = false /\ should_skip st 7%N (Some op_get) = true /\
+  generation_hooks st 0 1 None TCase op_get = [(KMap, 6%N)] /\
+  generation_hooks st 0 1 None TCase op_post = [(KMap, 7%N)] /\
+  generation_hooks_late st 0 1 None TCase op_get = [(KMap, 7%N)] /\
+  generation_hooks_late st 0 1 None TCase op_post = [(KMap, 7%N)].
+Proof. exact late_binding_witness. Qed.
+Print Assumptions C19_late_binding_witness.
+
+(* the strongest true restriction of the sentinel, and the reason stages with one hook per name are blind to it *)
+Theorem C19_late_binding_single_hook_partial : forall st di o,
+  one_per_case_name st di = true -> apply_case_hooks_late st di o = apply_case_hooks st di o.
+Proof. exact late_binding_single_hook. Qed.
+Print Assumptions C19_late_binding_single_hook_partial.
